@@ -358,18 +358,28 @@ class Interp:
             raise
         except SIM_EXC as e:
             if not getattr(e, "_sim_injected", False):
-                self.fail("context_raised", exception=type(e).__name__)
+                self._machinery_raised(k, e)
             st.hit("outcomes.context_left_by_exception")
             self.emit(f"{k} CTX-EXIT exc={type(e).__name__}")
             self.check(f"left ctx {k} by {type(e).__name__}")
             raise
         except BaseException as e:  # noqa: BLE001 - anything non-injected escaping the context machinery
-            self.fail("context_raised", exception=type(e).__name__, message=str(e)[:120])
+            if not isinstance(e, Exception):
+                raise
+            self._machinery_raised(k, e)
         st.hit("outcomes.context_left_normally")
         self.emit(f"{k} CTX-EXIT ok")
         return sig
 
     _frames: list
+
+    def _machinery_raised(self, k: int, e: BaseException) -> None:
+        """A non-injected exception came out of the context manager itself. That alone is not C20's business;
+        what C20 says is that the settings are restored - judge that, then stop the run (the model cannot follow)."""
+        self.out.stats.hit("outcomes.context_machinery_raised_" + type(e).__name__)
+        self.emit(f"{k} CTX machinery raised {type(e).__name__}")
+        self.check(f"context {k} raised {type(e).__name__} by itself")
+        raise _Abort()
 
     def do_obs(self, k: int, s: dict) -> None:
         what = s["what"]
@@ -394,7 +404,12 @@ class Interp:
             self.emit(f"{k} OBS {what} crashed at line {crash}")
             raise
         except BaseException as e:  # noqa: BLE001
-            self.fail("observe_raised", what=what, exception=type(e).__name__, message=str(e)[:120])
+            if not isinstance(e, Exception):
+                raise
+            # a helper that raises cannot be observed; that it raises is not C20's business
+            self.out.stats.hit("outcomes.helper_raised_" + type(e).__name__)
+            self.emit(f"{k} OBS {what} raised {type(e).__name__}")
+            return
         self.emit(f"{k} OBS {what} -> {got!r}")
         if self.ctx_depth:
             st.hit("probes.observation_inside_context")
